@@ -51,8 +51,13 @@ type Driver struct {
 	WorkDir  string
 	Replay   string
 	Findings []Finding
-	Start    time.Time
-	Jobs     int
+	// Pinned: stratum -> serialised cases of a demoted stratum on which the property held on the tree
+	// they were recorded on (/verif/pinned/<prop>.json, written by tools/pin.py, never at check time).
+	// They are replayed on every run as pseudo-strata "pinned:<stratum>"; a violation there is judged
+	// like one of a regular stratum, except that rate-capped failure classes do not cover it.
+	Pinned map[string][]json.RawMessage
+	Start  time.Time
+	Jobs   int
 }
 
 // ChildHook runs one history of a custom driver in a child process (set by the C20 monitor).
@@ -127,6 +132,12 @@ func Main() {
 		os.Exit(0)
 	}
 	d.Findings = loadFindings(filepath.Join(*verif, "known_findings.json"), p.ID)
+	if b, err := os.ReadFile(filepath.Join(*verif, "pinned", p.ID+".json")); err == nil {
+		if err := json.Unmarshal(b, &d.Pinned); err != nil {
+			fmt.Println("pinned cases unreadable:", err)
+			os.Exit(2)
+		}
+	}
 	if *replay != "" {
 		os.Exit(d.RunReplay(*replay))
 	}
@@ -277,6 +288,23 @@ func (d *Driver) Run() int {
 			continue
 		}
 		add(chunk{stratum: name, from: 0, to: len(f.Witnesses), witnesses: f.Witnesses})
+	}
+	// pinned cases of demoted strata
+	if os.Getenv("VERIF_STRATA") == "" || os.Getenv("VERIF_PINNED") != "" {
+		var names []string
+		for name := range d.Pinned {
+			names = append(names, name)
+		}
+		sort.Strings(names)
+		for _, sn := range names {
+			cases := d.Pinned[sn]
+			name := "pinned:" + sn
+			order = append(order, name)
+			aggs[name] = NewAgg()
+			for i := 0; i < len(cases); i += 100 {
+				add(chunk{stratum: name, from: i, to: min(i+100, len(cases)), witnesses: cases})
+			}
+		}
 	}
 	total := 0
 	for _, s := range p.Strata {
@@ -442,7 +470,7 @@ func (d *Driver) matchFinding(v ViolationRec, witnessHashes map[string]*Finding)
 	if f, ok := witnessHashes[v.Hash]; ok && f.Status == "open" {
 		return f
 	}
-	if len(v.Msgs) == 0 {
+	if len(v.Msgs) == 0 || strings.HasPrefix(v.Stratum, "pinned:") {
 		return nil
 	}
 	// call-site: every failure message of the case must be a panic explained by some open call-site
